@@ -64,10 +64,24 @@ _FAMILIES = [
     ("TsigError", lambda e: isinstance(e, _TSIG_ERRS)),
     ("NameLength", lambda e: isinstance(e, (dns.name.NameTooLong, dns.name.LabelTooLong))),
     ("IDNA", lambda e: isinstance(e, (dns.name.IDNAException, dns.name.NoIDNA2008))),
-    # the documented zone-semantic errors; UnicodeError (a ValueError subclass) is NOT one
-    ("ValueError", lambda e: isinstance(e, ValueError) and not isinstance(e, UnicodeError)),
-    ("KeyError", lambda e: isinstance(e, KeyError)),
+    # the documented zone-semantic errors: raised by the zone / transaction / node code
+    # itself.  UnicodeError (a ValueError subclass) is NOT one, nor is a ValueError that
+    # escapes from a conversion (int(), b64decode...) somewhere in the parsers.
+    ("ValueError", lambda e: isinstance(e, ValueError) and not isinstance(e, UnicodeError) and _semantic(e)),
+    ("KeyError", lambda e: isinstance(e, KeyError) and _semantic(e)),
 ]
+_SEMANTIC_FILES = ("transaction.py", "zone.py", "node.py", "versioned.py", "btreezone.py", "rdataset.py", "rrset.py")
+
+
+def _semantic(e):
+    """The exception was raised by a statement of the zone-content modules (innermost frame)."""
+    tb = e.__traceback__
+    if tb is None:
+        return False
+    while tb.tb_next is not None:
+        tb = tb.tb_next
+    fn = tb.tb_frame.f_code.co_filename.replace("\\", "/")
+    return "/dns/" in fn and fn.rsplit("/", 1)[1] in _SEMANTIC_FILES
 
 
 def tags_of(e):
